@@ -73,6 +73,52 @@ def n_op(dim, eig, one, n, i):
     return out
 
 
+# ---- histories of evaluations: an observable's value depends on the state it is given, not on what was evaluated before ----------
+def obshist_cases(tier):
+    """Every ordered pair of eigenstate tuples of one dimension (incl. the same labels in another order) that share a label x that
+    label as one_state x 1-2 qudits: evaluate on the first, then on the second, in ONE process."""
+    out = []
+    fam = {2: [("r", "g"), ("g", "r"), ("g", "h"), ("h", "g"), ("u", "d")], 3: [("r", "g", "h"), ("g", "r", "h"), ("r", "g", "x"), ("g", "h", "x")]}
+    for dim, eigs in fam.items():
+        for a, b in itertools.permutations(eigs, 2):
+            for one in sorted(set(a) & set(b)):
+                for n in (1, 2):
+                    out.append(("obshist", dim, a, b, one, n))
+    return out
+
+
+def check_obshist(dim, eig_a, eig_b, one, n):
+    import qutip
+    from pulser.backend import CorrelationMatrix, Occupation
+    from pulser_simulation.qutip_op import QutipOperator
+    from pulser_simulation.qutip_state import QutipState
+
+    out = []
+    dims = [[dim] * n, [dim] * n]
+    fam = state_family(dim, n)
+    for step, eig in (("first", eig_a), ("second", eig_b)):
+        name, rho, ket = fam[len(fam) // 2]
+        st = QutipState(qutip.Qobj(rho, dims=dims), eigenstates=eig)
+        Hop = QutipOperator(qutip.Qobj(hermitian(dim, n, 1), dims=dims), eigenstates=eig)
+        kw = dict(config=None, state=st, hamiltonian=Hop)
+        exp_occ = [float(np.real(np.trace(rho @ n_op(dim, list(eig), one, n, i)))) for i in range(n)]
+        exp_c = [[float(np.real(np.trace(rho @ n_op(dim, list(eig), one, n, i) @ n_op(dim, list(eig), one, n, j)))) for j in range(n)] for i in range(n)]
+        for nm, cls, exp in (("occupation", Occupation, exp_occ), ("correlation-matrix", CorrelationMatrix, exp_c)):
+            try:
+                got = np.asarray(cls(one_state=one).apply(**kw), dtype=complex)
+            except Exception as e:  # noqa: BLE001
+                if step == "first":
+                    continue  # what came before the first step belongs to other cases of this worker: not replayable, not reported here
+                out.append((f"C20:{nm}-depends-on-earlier-evaluations:{step}:raises",
+                            f"{type(e).__name__}: one_state {one!r} on eigenstates {eig} ({step} of the history {eig_a} -> {eig_b}, n={n}): {e}"[:300]))
+                continue
+            if step == "second" and np.max(np.abs(got.reshape(np.asarray(exp).shape) - np.asarray(exp))) > 1e-9:
+                out.append((f"C20:{nm}-depends-on-earlier-evaluations:{step}:value", f"one_state {one!r} on eigenstates {eig} ({step} of the history "
+                            f"{eig_a} -> {eig_b}, n={n}): {got.tolist()} vs {exp}"[:300]))
+    return out or [("@obshist", "")]
+
+
+
 def obs_cases(tier):
     out = []
     for dim, eigs in EIGS.items():
@@ -615,12 +661,50 @@ def check_tagclash(kind):
     return out + [("@tagclash", "")]
 
 
+def _in_fresh_child(fn, args):
+    """fn(*args) once more in this worker after forgetting what earlier cases left behind: every functools cache of the process and every
+    class-level dict cache of pulser.backend.default_observables is cleared first.  Returns None when the call still raises (then the
+    exception belongs to the case itself)."""
+    import functools
+    import gc
+
+    for obj in gc.get_objects():
+        try:
+            if isinstance(obj, functools._lru_cache_wrapper):
+                obj.cache_clear()
+        except Exception:  # noqa: BLE001
+            pass
+    import pulser.backend.default_observables as dobs
+
+    for cls in vars(dobs).values():
+        if isinstance(cls, type):
+            for nm, val in list(vars(cls).items()):
+                if isinstance(val, dict) and nm.startswith("_") and not nm.startswith("__"):
+                    val.clear()
+    try:
+        return fn(*args)
+    except Exception:  # noqa: BLE001
+        return None
+
+
+
 def worker(case):
     with warnings.catch_warnings():
         warnings.simplefilter("ignore")
         k = case[0]
         if k == "obs":
-            return check_obs(*case[1:])
+            try:
+                return check_obs(*case[1:])
+            except Exception:  # noqa: BLE001
+                # raised in a pooled worker that has evaluated other cases before: decide in a fresh child whether the case ALONE raises
+                # (then the exception is this case's finding and propagates), or whether it is the worker's history (then the isolated
+                # history family above is in charge of reporting it, replayably)
+                alone = _in_fresh_child(check_obs, case[1:])
+                if alone is None:
+                    raise
+                return alone + [("@raised-only-after-other-cases-of-the-worker", "")]
+        if k == "obshist":
+            return check_obshist(*case[1:])
         if k == "oprepr":
             return check_oprepr(*case[1:])
         if k == "strepr":
@@ -642,6 +726,10 @@ def run(tier, seed):
     res = Result("exploration")
     cases = obs_cases(tier) + repr_cases(tier) + e2e_cases(tier) + bit_cases(tier) + tsweep_cases(tier) + rstore_cases(tier) + tagclash_cases(tier)
     outs = gridx.run(worker, cases, chunksize=4)
+    # histories of evaluations: each in a freshly forked process, so that the history is exactly the one written in the case
+    hist = obshist_cases(tier)
+    outs += gridx.run(worker, hist, isolate=True)
+    cases += hist
     classes = {}
     for c, r in zip(cases, outs):
         for fp, d in r:
